@@ -77,5 +77,5 @@ def run(st, tier, seed):
         parsecorr_sys.check_docs(res, drv, parsecorr_sys.gen_docs(rng, 100 if quick else 3000), "text-gen")
         parsecorr_sys.check_render(res, drv, parsecorr_sys.gen_asts(rng, 100 if quick else 2000), "text-render")
         if not quick:
-            parsecorr_sys.check_docs(res, drv, parsecorr_sys.example_docs(), "text-examples")
+            parsecorr_sys.check_docs(res, drv, [(t, a) for _, t, a in parsecorr_sys.example_docs()], "text-examples")
     return res
